@@ -70,6 +70,10 @@ pub struct HubInner {
     pub votes: Vec<(u64, usize, Vote)>,
     pub record_consensus: bool,
     pub start: tokio::time::Instant,
+    /// Extra delay (ms) per position from the end of the window for consensus messages:
+    /// with r > 0 a message for the k-th slot of a window is delayed by (3 - k) * r, so that
+    /// votes / certificates for later slots of a window overtake those for earlier ones.
+    pub a2a_reorder_ms: u64,
 }
 
 pub struct Hub {
@@ -94,6 +98,7 @@ impl Hub {
                 votes: Vec::new(),
                 record_consensus: true,
                 start: tokio::time::Instant::now(),
+                a2a_reorder_ms: 0,
             }),
         })
     }
@@ -131,7 +136,16 @@ impl Hub {
             g.held.push((to_port, bytes));
             return;
         }
-        let d = g.delay[from][to];
+        let mut d = g.delay[from][to];
+        if g.a2a_reorder_ms > 0 && chan_of(to_port) == CH_A2A {
+            if let Ok(m) = alpenglow::network::deserialize::<ConsensusMessage>(&bytes) {
+                let slot = match &m {
+                    ConsensusMessage::Cert(c) => c.slot().inner(),
+                    ConsensusMessage::Vote(v) => v.slot().inner(),
+                };
+                d += Duration::from_millis((3 - slot % 4) * g.a2a_reorder_ms);
+            }
+        }
         let Some(tx) = g.inboxes.get(&to_port).cloned() else {
             if chan_of(to_port) == CH_REQ {
                 g.to_attacker += 1;
